@@ -40,7 +40,7 @@ EXPLANATION = "one inductive step from an arbitrary valid pre-state, all observe
 
 CONFIGS = ["memory", "file", "proxy(memory)", "indexer(memory)", "overlay(memory,empty)", "mount(default=memory)+m",
            "global: indexer(mountpoint) with memory mounted at r", "proxy(file)", "overlay(file,empty memory)"]
-OPS = ["store", "store_metadata", "remove", "makedir", "removedir_recursive", "removedir_empty", "reads"]
+OPS = ["store", "store_metadata", "remove", "makedir", "removedir_recursive", "removedir_empty", "reads", "recreate"]
 TAGS = ["new", "t/-~ x"]
 PATTERN = b"NEW"
 FILE_CONFIGS = (1, 7, 8)
@@ -84,7 +84,7 @@ def wellformed(name, k0, model):
         return k0 in model and model[k0] != "dir"
     if name == "makedir":
         return isd
-    if name == "removedir_recursive":
+    if name in ("removedir_recursive", "recreate"):
         return model.get(k0) == "dir"
     if name == "removedir_empty":
         return model.get(k0) == "dir" and not any(x.startswith(k0 + "/") for x in model)
@@ -207,8 +207,28 @@ def ob_step(c: int, plen: int, mv: int, ti: int) -> bool:
                 elif name == "removedir_empty":
                     s.removedir(key)
                     del model[k0]
+                elif name == "recreate":
+                    # re-creation after removal, on the SAME store object: recursive removal of a directory, then a write below it
+                    s.removedir(key, recursive=True)
+                    for x in list(model):
+                        if x == k0 or x.startswith(k0 + "/"):
+                            del model[x]
+                    child = [x for x in sl.U if sl.PARENT[x] == k0 and not sl.ISDIR[sl.IDX[x]]][0]
+                    s.store(pfx + child, b"RE", dict(tag="re", n=1))
+                    model[child] = (b"RE", "re", 1)
+                    p = sl.PARENT[child]
+                    while p:
+                        model[p] = "dir"
+                        p = sl.PARENT[p]
                 else:
                     conforms(s, model, pfx, extra)    # reads must not change anything: observe twice
+                    # ... and what a read RETURNS is the caller's: scribbling on it changes nothing in the store
+                    for x in sl.U:
+                        if x in model:
+                            md = s.get_metadata(pfx + x)
+                            md["tag"] = "tampered"
+                            md["key"] = "tampered"
+                            md.setdefault("fileinfo", {})["size"] = -1
         ok = conforms(s, model, pfx, extra)
     return check(ok)
 
